@@ -299,6 +299,10 @@ def classify(mode, res, position):
     """What the implementation reported: 'forbidden', 'ran' (the call returned: AFTER seen / test
     passed), 'exception' (ordinary Garden error), 'parse' or 'other'."""
     out = res["out"]
+    if res["rc"] == -9999:
+        return "timeout"
+    if common.crashed(res["rc"]):
+        return "crash"
     if mode == "sandboxed-test":
         try:
             j = json.loads(out.strip().split("\n")[-1])
@@ -418,15 +422,18 @@ def judge_sandboxed(ctx, arm, mode, position, src, res, effectful, tag=""):
             obs["arms"].append(name)
     base = dict(arm=name, mode=mode, position=position, program=src, observed=cls,
                 stdout=res["out"][-600:], stderr=res["err"][-300:], rc=res["rc"], replay_cmd=replay_cmd(mode, src))
-    if res["rc"] == -9999:
-        ctx.fail("C24/%s/timeout" % name, "sandboxed run did not finish within %d s (blocked on stdin?)" % (3 * TIMEOUT),
-                 evidence=ev, **base)
+    if cls == "timeout":
+        # A run killed by the wall-clock limit (twice: 10 s, then 30 s) says nothing about C24: stdin
+        # always holds data and is at EOF behind it, so a sandboxed stdin read cannot block; on a loaded
+        # machine a 50 ms run can miss the limit. Inconclusive: counted in the evidence, the effect
+        # observers below still apply to whatever the killed process did.
+        ctx.cov["timeouts_inconclusive"] = ctx.cov.get("timeouts_inconclusive", 0) + 1
     if ev:
         ctx.fail("C24/%s/effect" % name,
                  "a sandboxed program had an effect outside the interpreter: " + "; ".join(ev), evidence=ev, **base)
     if effectful:
         ok = cls == "forbidden" or (mode == "playground-run" and position == "test" and cls == "stopped-in-test")
-        if not ok and not ev and res["rc"] != -9999:
+        if not ok and not ev and cls != "timeout":
             ctx.fail("C24/%s/not-forbidden%s" % (name, tag),
                      "an effectful built-in called in sandboxed mode did not end the evaluation with the "
                      "'unsafe code in sandboxed mode' error (observed: %s)" % cls, **base)
@@ -571,14 +578,14 @@ def _run(ctx, rng, t, arms, root):
         tag = "" if j["variant"] == "typed" else "-malformed-call"
         cls = judge_sandboxed(ctx, a, j["mode"], j["position"], j["src"], res, effectful, tag)
         counts[cls] = counts.get(cls, 0) + 1
-        nontrivial = cls not in ("parse", "other")
-        if not nontrivial and len(unclassified) < 5:
+        nontrivial = cls not in ("parse", "other", "timeout")
+        if cls in ("parse", "other") and len(unclassified) < 5:
             unclassified.append({"arm": a["name"], "mode": j["mode"], "position": j["position"], "program": j["src"],
                                  "stdout": res["out"][-300:], "stderr": res["err"][-300:], "rc": res["rc"]})
         reached += 1 if nontrivial else 0
         ctx.case((a["name"], j["mode"], j["position"], j["src"]), nontrivial)
         # correspondence: model outcome vs reported outcome
-        if key in pred and cls not in ("parse", "other"):
+        if key in pred and cls not in ("parse", "other", "timeout", "crash"):
             # playground-run reports a test that ended in ANY error as "Failed: name": there the two
             # outcomes can only be told apart in one direction (the call returned or it did not)
             if cls == "stopped-in-test":
@@ -605,16 +612,25 @@ def _run(ctx, rng, t, arms, root):
     ctx.cov["unguarded_effectful_arms_in_table"] = sorted(
         a["name"] for a in arms if a["effects"] and not a["guardFirst"])
     ctx.cov["reached_call_fraction"] = round(reached / max(1, len(jobs)), 3)
-    per_arm_reached = {}
+    per_arm_reached, per_arm_missed = {}, {}
     for j, res in zip(jobs, results):
         c = classify(j["mode"], res, j["position"])
-        if c not in ("parse", "other"):
-            per_arm_reached[j["arm"]["name"]] = per_arm_reached.get(j["arm"]["name"], 0) + 1
-    never = sorted(a["name"] for a in arms if a["name"] not in per_arm_reached)
+        nm = j["arm"]["name"]
+        if c in ("parse", "other"):
+            per_arm_missed[nm] = per_arm_missed.get(nm, 0) + 1
+        elif c != "timeout":        # a crash inside the call (rc 101) did reach it
+            per_arm_reached[nm] = per_arm_reached.get(nm, 0) + 1
+    never = sorted(a["name"] for a in arms if a["name"] not in per_arm_reached and a["name"] in per_arm_missed)
     ctx.cov["arms_never_reached"] = never
+    ctx.cov["arms_only_timeouts"] = sorted(a["name"] for a in arms if a["name"] not in per_arm_reached
+                                           and a["name"] not in per_arm_missed)
     if never:
         ctx.broken.append({"kind": "harness", "what": "no generated program reached the call for arm(s) %s "
                            "(Garden-level name / signature extraction is off)" % ", ".join(never)})
+    if reached * 2 < len(jobs):
+        ctx.broken.append({"kind": "harness", "what": "fewer than half of the runs were conclusive (%d of %d; "
+                           "timeouts: %d): machine too loaded for this check" % (
+                               reached, len(jobs), counts.get("timeout", 0))})
 
     # ---- sequences of calls: where does the run end?
     eff_arms = [a for a in arms if a["effects"]]
@@ -664,6 +680,9 @@ def _run(ctx, rng, t, arms, root):
                         program=j["src"], stdout=res["out"][-600:], replay_cmd=replay_cmd("playground-run", j["src"]))
             if ev:
                 ctx.fail("C24/sequence/effect", "a sandboxed program had an effect: " + "; ".join(ev), **base)
+            if res["rc"] == -9999:
+                ctx.cov["timeouts_inconclusive"] = ctx.cov.get("timeouts_inconclusive", 0) + 1
+                continue
             first_eff = next((i for i, a in enumerate(j["picks"]) if a["effects"]), None)
             if first_eff is not None and impl != "forbiddenAt:%d" % first_eff and not ev:
                 ctx.fail("C24/sequence/not-forbidden", "run did not end with the forbidden error at the first "
@@ -679,7 +698,7 @@ def _run(ctx, rng, t, arms, root):
 
     # ---- positive controls: the observers see the effect when the sandbox is off
     controls = positive_controls()
-    detected, undetected = [], []
+    detected, undetected, control_timeouts = [], [], []
     cjobs = []
     for a in eff_arms:
         mk = controls.get(a["name"])
@@ -695,13 +714,17 @@ def _run(ctx, rng, t, arms, root):
         ev = effects_observed(res)
         ok = bool(ev) or (expect is not None and re.search(expect, res["out"]) is not None)
         ctx.case(("control", a["name"], src), True)
+        if res["rc"] == -9999 and not ok:
+            control_timeouts.append(a["name"])
+            continue
         (detected if ok else undetected).append(a["name"])
         if not ok:
             ctx.notes.append("positive control for %s: effect not observed without the sandbox (stdout %r)"
                              % (a["name"], res["out"][-200:]))
     ctx.cov["positive_controls_detected"] = sorted(detected)
     ctx.cov["positive_controls_undetected"] = sorted(undetected)
-    if eff_arms and len(detected) * 2 < len(eff_arms):
+    ctx.cov["positive_controls_timed_out"] = sorted(control_timeouts)
+    if eff_arms and len(detected) * 2 < len(eff_arms) - len(control_timeouts):
         ctx.broken.append({"kind": "harness", "what": "fewer than half of the unsandboxed positive controls were "
                            "detected (%d of %d): the observers are blind" % (len(detected), len(eff_arms))})
 
